@@ -724,11 +724,8 @@ def run_matrix(tape, start, cfgs, loads, wd, tag, m128=False, scratch=None):
         env = env_of(cfg)
         if base_ok.get(env) is False:
             continue
-        t0 = time.time()
         s, err, _ = run_tap2sna(tape, os.path.join(wd, '%s_%d.z80' % (tag, k)), start, cfg, m128)
         p = project(s, err, cfg, loads)
-        if os.environ.get('C13_TIMES'):
-            print('%.2f %s' % (time.time() - t0, cfg_name(cfg)))
         if scratch:
             for (addr, bs), got in zip(loads, p['data']):
                 for i in range(len(got)):
